@@ -169,8 +169,9 @@ func vfGenC22(t *rapid.T) *vfC22Case {
 }
 
 type vfC22Outcome struct {
-	entered bool
-	msg     string
+	entered      bool
+	msg          string
+	headerParses bool // group only: the 32-byte group header is, by chance or by grinding, well-formed protobuf
 }
 
 // vfRunC22 builds the state and the submission of a case, submits, and applies the oracle. It returns whether the
@@ -288,7 +289,11 @@ func vfRunC22(c *vfC22Case) vfC22Outcome {
 		w := types.CloneTx(submission.tx)
 		switch v.Variant {
 		case 0: // wrapper signature bytes tampered
-			w.Signature.Signature[9] ^= 0x40
+			if len(w.Signature.Signature) > 9 {
+				w.Signature.Signature[9] ^= 0x40
+			} else {
+				w.Signature.Signature = []byte{1}
+			}
 		case 1: // wrapper claims another account's key
 			w.Signature.Pubkey = vfSenders[(bad[0].Sender+1)%3].priv.PubKey().Bytes()
 			w.Signature.Ty = vfSenders[(bad[0].Sender+1)%3].ty
@@ -329,7 +334,12 @@ func vfRunC22(c *vfC22Case) vfC22Outcome {
 		}
 		lib.Class("control_twin_admitted")
 	}
-	return vfC22Outcome{entered: entered, msg: msg}
+	out := vfC22Outcome{entered: entered, msg: msg}
+	if len(submission.members) > 1 {
+		var probe types.Transactions
+		out.headerParses = types.Decode(submission.members[0].Header, &probe) == nil
+	}
+	return out
 }
 
 type vfBuilt struct {
@@ -394,8 +404,9 @@ func (c *vfC22Case) classes() (shape string, single bool) {
 // clause must be one that a listed finding lets through, otherwise the case is a new violation.
 //   - wrapper finding: the wrapper clause itself, plus the two eth nonce clauses, which the code evaluates on the
 //     unverified wrapper's own signature type and nonce;
-//   - header finding: an expiry clause of a member of a group whose header was ground to parse as protobuf.
-func vfKnownC22(c *vfC22Case) string {
+//   - header finding: an expiry clause of a member of a group whose 32-byte header parses as protobuf (by grinding,
+//     or by chance: about 1 in 500 hashes does).
+func vfKnownC22(c *vfC22Case, out vfC22Outcome) string {
 	id, wrapper := "", false
 	for _, v := range c.Violations {
 		wrapper = wrapper || v.Clause == clWrapper
@@ -405,7 +416,7 @@ func vfKnownC22(c *vfC22Case) string {
 		case v.Clause == clWrapper && lib.Known(vfFindingWrapper):
 			id = vfFindingWrapper
 		case (v.Clause == clNonceLow || v.Clause == clNoncePending) && wrapper && lib.Known(vfFindingWrapper):
-		case (v.Clause == clExpHeight || v.Clause == clExpTime) && c.Grind && len(c.Tx) > 1 && lib.Known(vfFindingExpHdr):
+		case (v.Clause == clExpHeight || v.Clause == clExpTime) && out.headerParses && lib.Known(vfFindingExpHdr):
 			if id == "" {
 				id = vfFindingExpHdr
 			}
@@ -425,7 +436,7 @@ func TestPropAdmission(t *testing.T) {
 		out := vfRunC22(c)
 		shape, single := c.classes()
 		lib.Class("shape_" + shape)
-		if c.Grind {
+		if out.headerParses {
 			lib.Class("group_header_parses_as_protobuf")
 		}
 		if len(c.Violations) == 0 {
@@ -439,7 +450,7 @@ func TestPropAdmission(t *testing.T) {
 			}
 		}
 		if out.entered {
-			if id := vfKnownC22(c); id != "" {
+			if id := vfKnownC22(c, out); id != "" {
 				lib.ExcludedKnown(id)
 				return
 			}
@@ -456,14 +467,14 @@ func TestPropAdmission(t *testing.T) {
 
 // Minimal case: a valid two-member group (both members correctly signed) whose wrapper transaction carries a
 // signature that does not verify. The property demands rejection ("every signature verifies").
-func TestKnown_GroupWrapperUnverified(t *testing.T) {
+func TestKnown_C22GroupWrapperUnverified(t *testing.T) {
 	defer lib.Flush()
 	vfInitSenders()
 	for variant := 0; variant <= 1; variant++ {
 		c := &vfC22Case{Height: 10, BlockTime: vfBaseTime, PerAcc: 3, Tx: []vfTxSpec{{Sender: 0, To: 1, Nonce: 1}, {Sender: 1, To: 0, Nonce: 2}},
 			Violations: []vfViolation{{Clause: clWrapper, Variant: variant}}}
 		if out := vfRunC22(c); out.entered {
-			lib.KnownOrViolation(t, "C22", "TestKnown_GroupWrapperUnverified", vfFindingWrapper, c,
+			lib.KnownOrViolation(t, "C22", "TestKnown_C22GroupWrapperUnverified", vfFindingWrapper, c,
 				"a group whose wrapper transaction has an invalid signature (or claims another account's public key) is admitted: only the members inside Header are verified, the wrapper that is pooled and indexed by its From() never is")
 		}
 	}
@@ -471,13 +482,13 @@ func TestKnown_GroupWrapperUnverified(t *testing.T) {
 
 // Minimal case: a two-member group whose second member is expired for the next block, with the last member's nonce
 // chosen so that the 32-byte group header happens to be well-formed protobuf.
-func TestKnown_GroupExpirySkippedWhenHeaderParses(t *testing.T) {
+func TestKnown_C22GroupExpirySkippedWhenHeaderParses(t *testing.T) {
 	defer lib.Flush()
 	vfInitSenders()
 	c := &vfC22Case{Height: 10, BlockTime: vfBaseTime, PerAcc: 3, Grind: true, Tx: []vfTxSpec{{Sender: 0, To: 1, Nonce: 1}, {Sender: 1, To: 0, Nonce: 2}},
 		Violations: []vfViolation{{Clause: clExpHeight, Member: 1, Variant: 1}}}
 	if out := vfRunC22(c); out.entered {
-		lib.KnownOrViolation(t, "C22", "TestKnown_GroupExpirySkippedWhenHeaderParses", vfFindingExpHdr, c,
+		lib.KnownOrViolation(t, "C22", "TestKnown_C22GroupExpirySkippedWhenHeaderParses", vfFindingExpHdr, c,
 			"an expired group member is admitted when the group's 32-byte header parses as protobuf: checkTx -> IsExpire calls GetTxGroup on the member, which decodes that hash as an (empty) group and skips the member's own expiry")
 	}
 }
